@@ -84,7 +84,7 @@ def written_targets(fmt, obj, cls):
     return out
 
 
-def apply_special(fmt, obj, name, k):
+def apply_special(fmt, obj, name, k, desc=None):
     """returns (label, depth) or None when the object offers no position for this corruption"""
     if fmt == "composeinfo":
         variants = [(p, v) for p, v in reachable(obj) if type(v).__name__ == "Variant"]
@@ -158,7 +158,13 @@ def apply_special(fmt, obj, name, k):
             obj.images.images[plat]["kernel"] = "/boot/vmlinuz"
             return "images[%s]" % plat, 1
         if name == "unreferenced-platform":
-            if k % 2:
+            if k % 3 == 2:
+                # a platform other trees in the same process legitimately name, but this one does not
+                named = set(desc["tree"]["platforms"]) if desc else set(obj.tree.platforms)       # what THIS tree was given, not what the object claims
+                others = [p for p in ("xen", "x86_64", "i386", "ppc64le", "efi", "s390x", "Xen") if p not in named and p != obj.tree.arch]
+                obj.images.images[others[(k // 3) % len(others)]] = {"kernel": "vmlinuz"}
+                return "images[%s] (named by other trees only)" % others[(k // 3) % len(others)], 1
+            if k % 3 == 1:
                 # the arch is listed automatically on WRITE, but image tables are checked against the platforms the tree
                 # really names: images for the arch while tree.platforms does not name it
                 obj.tree.platforms.discard(obj.tree.arch)
@@ -224,7 +230,7 @@ def corrupt_and_dump(fmt, desc, corruption, via_file=False, validated_first=Fals
         if not names:
             return None
         name = names[corruption["row"] % len(names)]
-        res = apply_special(fmt, obj, name, corruption["target"])
+        res = apply_special(fmt, obj, name, corruption["target"], desc)
         if res is None:
             return None
         label, depth = "%s (%s)" % (name, res[0]), res[1]
